@@ -1,6 +1,7 @@
 //! Correspondence harness: runs the real rs-tftpd code on line-protocol cases.
 mod capture;
 mod codec;
+mod netloop;
 mod config;
 mod server;
 mod util;
@@ -26,6 +27,12 @@ fn dispatch(line: &str) -> String {
         "rcv" => worker::rcv_line(&toks),
         "req" => server::req_line(&toks),
         "cfg" => config::cfg_line(&toks),
+        "loop" => {
+            tftpd::verif::set_virtual(true);
+            let r = netloop::loop_line(&toks);
+            tftpd::verif::set_virtual(false);
+            r
+        }
         "storm" => server::storm_line(&toks),
         _ => "bad-op".to_string(),
     }
